@@ -1,7 +1,7 @@
 """Rules over Layer-2 event logs shared by several properties (DESIGN.md 2.2, 2.4)."""
 from . import arr as A
 from .arr import Arr
-from .core import Finding, norm_text
+from .core import AnalysisError, Finding, norm_text
 from .shape import Size, sz_eq, sz_prod
 
 
@@ -44,6 +44,10 @@ def typing_obligations(run, prop, rule, repo, sc, scen, mods=None):
             where, cons, f, ln = ev_where(repo, e, mods)
             run.oblige(rule, (where, cons, 'err'), False)
             run.add(Finding(prop, rule, where, cons, f'ill-typed contraction ({scen}): {e["detail"]}', f, ln, {'scenario': scen, 'path': e.get('callers')}))
+        elif k == 'sum-type-error':
+            where, cons, f, ln = ev_where(repo, e, mods)
+            run.oblige(rule, (where, cons, 'sum'), False)
+            run.add(Finding(prop, rule, where, cons, f'ill-typed sum ({scen}): {e["detail"]}', f, ln, {'scenario': scen}))
         elif k == 'reshape-misaligned':
             where, cons, f, ln = ev_where(repo, e, mods)
             semantic = any(l.resolve().kind in ('R', 'M') for g in e['array'].legs for l in g)
@@ -72,6 +76,10 @@ def typing_obligations(run, prop, rule, repo, sc, scen, mods=None):
 
 def raised_finding(run, prop, rule, repo, entry_qual, scen, r, instance=None):
     """the scenario lies in the property's quantifier, so an exception raised by the code is a violation"""
+    if getattr(r, 'assumed_equal', None) and r.exc_type == 'ValueError':
+        l_, r_ = r.assumed_equal[0]
+        raise AnalysisError(f'{scen}: on the path where the sizes {l_} and {r_} are equal (a test of the code compares them) a shape error follows ({r.message[:120]}); the analysis '
+                            f'does not identify the two symbols afterwards, so the error may be its own artefact')
     fn = r.fn
     where = repo.fn(entry_qual).where
     path = ' -> '.join(f'{q} [{loc}]' for q, loc, _ in (r.path or [])[-4:])
